@@ -89,9 +89,22 @@ func runHistory(r *core.Run, cid string, L int) {
 			l.duplicate()
 		case x < 93:
 			l.batch()
-		case x < 96:
+		case x < 95:
 			a, b := s.RandNodePair()
 			_, _, _ = s.UpdateClient(a, b, s.RandRelayer(), 0)
+		case x < 96:
+			// governance replaces or upgrades the client of one path: in-flight value stays in flight
+			a, b := s.RandNodePair()
+			gov := s.ToggleRoundTrip
+			if rng.Intn(2) == 0 {
+				gov = s.UpgradeClient
+			}
+			if err := gov(a, b); err != nil {
+				r.Inconclusive("%s: client toggle / upgrade failed: %v", cid, err)
+				return
+			}
+			r.Count("client_toggles_and_upgrades", 1)
+			l.check("client toggle / upgrade", nil)
 		default:
 			s.W.Roll(s.W.Nodes[rng.Intn(len(s.W.Nodes))])
 		}
